@@ -338,6 +338,8 @@ class Check:
                     "obligations": 0, "discharged": 0, "checker_cmd": "", "trusted_base": []}
         self.assumptions = []
         self.findings = [f for f in load_findings() if f.get("property") == pid]
+        # replay files are rewritten by every run
+        shutil.rmtree(os.path.join(VERIF, "replays", pid), ignore_errors=True)
         self.distinct = set()
         self.proof_ok = True
         self.broken = []         # names of theorems/files/correspondences that no longer check
